@@ -60,11 +60,16 @@ def main(argv=None):
     except MachineryError as ex:
         print("MACHINERY-ERROR: %s" % ex)
         rep.note("machinery error: %s" % ex)
-        rep.finish()
-        return 2
+        rc = rep.finish()
+        # violations that were already confirmed and printed stand (exit 1); otherwise exit 2
+        return 1 if rc == 1 else 2
     except Exception:
         traceback.print_exc()
         print("MACHINERY-ERROR: unexpected exception")
+        if rep.violations:
+            rep.note("machinery error after confirmed violations")
+            rep.finish()
+            return 1
         return 2
     return rep.finish()
 
